@@ -323,9 +323,10 @@ def impl_finish(skip, items, vols, u0, u1):
                     raise
                 return ('err', 'EValue'), seen.get('args')
     except Exception:      # pylint: disable=broad-except
-        if 'args' in seen:
-            raise
-        # the stub was never reached: the rewrite bypasses the patched names
+        # the stub was never reached (the rewrite bypasses the patched names),
+        # or the rewrite expects another representation of what the
+        # constructors return (a record instead of a tuple): use the public
+        # functions of the tail instead
         W.construct_surface_t4, W.construct_volume_t4 = old
         surfs = {k: to_surface(d, origin=[k]) for k, d in items}
         return impl_finish_public(skip, surfs, to_volume_dict(vols), u0, u1), \
@@ -507,33 +508,40 @@ def impl_occurrences(cells, rng):
 
 
 def impl_inline(cells, score, rng):
-    '''inline_cells with the to_inline set captured from the worker calls.
-    Returns (to_inline or None when the worker was never reached, result).'''
+    '''inline_cells(dic, score) through the public entry point, with the set of
+    inlined cells obtained from the public find_occurrences and
+    compute_inlining_scores (score < max, the selection rule of inline_cells)
+    on a copy of the table - no private helper is hooked.  Returns
+    (to_inline or None when those functions are not present, result).'''
     from t4_geom_convert.Kernel.Volume import CellInlining as CI
-    dic = to_cell_dict(cells, rng)
-    captured = []
-    real = getattr(CI, 'inline_cells_worker', None)
-    if real is None:
-        return None, ('skip', 'inline_cells_worker not present')
-
-    def spy(geometry, dic_, to_inline):
-        if not captured:
-            captured.append(sorted(to_inline))
-        return real(geometry, dic_, to_inline)
-    CI.inline_cells_worker = spy
+    find = getattr(CI, 'find_occurrences', None)
+    scores = getattr(CI, 'compute_inlining_scores', None)
+    if find is None or scores is None:
+        return None, ('skip', 'find_occurrences / compute_inlining_scores '
+                              'not present')
+    probe = to_cell_dict(cells, random_copy(rng))
     try:
-        with quiet():
-            try:
-                CI.inline_cells(dic, score)
-                out = ('ok', from_cell_dict(dic))
-            except KeyError:
-                out = ('err', 'EKey')
-            except RecursionError:
-                c13_cov.rearm()
-                out = ('err', 'EFuel')
-    finally:
-        CI.inline_cells_worker = real
-    return (captured[0] if captured else []), out
+        occ = find(probe)
+        ti = sorted(int(k) for k, sc in scores(probe, occ).items()
+                    if sc < score) if occ else []
+    except KeyError:
+        ti = []
+    dic = to_cell_dict(cells, rng)
+    with quiet():
+        try:
+            CI.inline_cells(dic, score)
+            out = ('ok', from_cell_dict(dic))
+        except KeyError:
+            out = ('err', 'EKey')
+        except RecursionError:
+            c13_cov.rearm()
+            out = ('err', 'EFuel')
+    return ti, out
+
+
+def random_copy(rng):
+    import random
+    return random.Random(rng.random())
 
 
 def impl_inline_plain(cells, score, rng):
@@ -598,7 +606,8 @@ def impl_fill(cells, fd, fg, rng):
     except RecursionError:
         c13_cov.rearm()
         return free_key, ('err', 'EFuel')
-    return free_key, ('ok', from_cell_dict(dic), conv.new_cell_key)
+    return free_key, ('ok', from_cell_dict(dic),
+                      getattr(conv, 'new_cell_key', max(max(dic), free_key)))
 
 
 # ---------------------------------------------------------------------------
@@ -639,51 +648,59 @@ def snapshot_cells(mcnp_dict, mats):
     return cells, tinfo
 
 
+def tree_leaves(tree):
+    if tree[0] == 's':
+        return [abs(tree[1])]
+    if tree[0] == 'r':
+        return []
+    return [x for t in tree[1] for x in tree_leaves(t)]
+
+
 def impl_fill_tr(deck_text, args):
     '''Run the real conversion and capture the cell table just before the FILL
-    loop (at by_universe) and just after it (at inline_cells).  Returns
-    (pre, post) or None when the conversion does not get that far.'''
+    loop (at by_universe) and just after it (at inline_cells).  Only the tables
+    are read (public attributes of the cells); the two counters are derived
+    from them: the cells / surfaces made by the loop are numbered from
+    counter + 1 upwards.  Returns (pre, post), None when the conversion does
+    not get that far, or 'hooks-missing'.'''
     from t4_geom_convert.Kernel.Volume import ConstructVolumeT4 as CV
     import impl
     cap, mats = {}, {}
-    if not all(hasattr(CV, n) for n in ('by_universe', 'inline_cells',
-                                        'CellConversion')):
+    if not all(hasattr(CV, n) for n in ('by_universe', 'inline_cells')):
         return 'hooks-missing'
-    real_by, real_inl, real_cls = CV.by_universe, CV.inline_cells, \
-        CV.CellConversion
-
-    class Spy(real_cls):
-        def __init__(self, *a, **kw):
-            super().__init__(*a, **kw)
-            cap['conv'] = self
+    real_by, real_inl = CV.by_universe, CV.inline_cells
 
     def spy_by(mcnp_dict):
-        conv = cap['conv']
         try:
-            cells, tinfo = snapshot_cells(mcnp_dict, mats)
-            cap['pre'] = (cells, tinfo, conv.new_cell_key, conv.new_surf_key,
-                          len(conv.cell_transform_cache))
-        except Unsupported as exc:
-            cap['skip'] = str(exc)
+            cap['pre'] = snapshot_cells(mcnp_dict, mats)
+        except Exception as exc:      # pylint: disable=broad-except
+            cap['skip'] = repr(exc)
         return real_by(mcnp_dict)
 
     def spy_inl(mcnp_dict, score):
-        conv = cap['conv']
         try:
-            cells, _ = snapshot_cells(mcnp_dict, mats)
-            cap['post'] = (cells, conv.new_cell_key, conv.new_surf_key)
-        except Unsupported as exc:
-            cap['skip'] = str(exc)
+            cap['post'] = snapshot_cells(mcnp_dict, mats)[0]
+        except Exception as exc:      # pylint: disable=broad-except
+            cap['skip'] = repr(exc)
         return real_inl(mcnp_dict, score)
-    CV.by_universe, CV.inline_cells, CV.CellConversion = spy_by, spy_inl, Spy
+    CV.by_universe, CV.inline_cells = spy_by, spy_inl
     try:
-        impl.convert(deck_text, args, keep_stdout=False)
+        conv = impl.convert(deck_text, args, keep_stdout=False)
     finally:
-        CV.by_universe, CV.inline_cells, CV.CellConversion = \
-            real_by, real_inl, real_cls
+        CV.by_universe, CV.inline_cells = real_by, real_inl
     if 'skip' in cap or 'pre' not in cap or 'post' not in cap:
-        return None
-    return cap['pre'], cap['post']
+        return ('not-captured', bool(conv.ok))
+    cells, tinfo = cap['pre']
+    post = cap['post']
+    old_keys = {k for k, _ in cells}
+    new_keys = [k for k, _ in post if k not in old_keys]
+    ckey = min(new_keys) - 1 if new_keys else max(old_keys) + 1
+    ckey2 = max(new_keys) if new_keys else ckey
+    old_surfs = {x for _, c in cells for x in tree_leaves(c['geom'])}
+    new_surfs = {x for _, c in post for x in tree_leaves(c['geom'])} - old_surfs
+    skey = min(new_surfs) - 1 if new_surfs else max(old_surfs | {0})
+    skey2 = max(new_surfs) if new_surfs else skey
+    return (cells, tinfo, ckey, skey, 0), (post, ckey2, skey2)
 
 
 def coq_tr(t):
